@@ -68,7 +68,7 @@ func (eng *Engine) verifyFunc(key string) *FuncReport {
 	ex.safety = c.Safety
 	ex.budget = 1
 	wm0 := Const("wm0", IntSort)
-	st := &State{pc: True, locals: map[*ssa.Alloc][]*Term{}, heap: newHeap(), wm: wm0}
+	st := &State{pc: True, locals: map[*ssa.Alloc][]*Term{}, heap: newHeap(wm0), wm: wm0}
 	ex.assume(True, Ge(wm0, IntLit(0)))
 	fr := &Frame{fn: fn, regs: map[ssa.Value]Value{}, params: map[*ssa.Parameter]Value{}, freeVars: map[*ssa.FreeVar]Value{}, callOrd: map[string]int{}, top: true, contract: c}
 	for _, p := range fn.Params {
@@ -100,7 +100,7 @@ func (eng *Engine) verifyFunc(key string) *FuncReport {
 		ex.prove(key, out, "post", label, g, e.Text, fn.Pos())
 	}
 	if c.HasMod {
-		ex.frameObligations(fr, out, c, key)
+		ex.frameObligations(fr, out, fr.entry, c.Modifies, key, "frame", "")
 	}
 	rep.NAssumeEnd = len(ex.assumes)
 	rep.Obligations = ex.obligations
@@ -112,13 +112,12 @@ func (eng *Engine) verifyFunc(key string) *FuncReport {
 }
 
 // frameObligations: every heap location allocated before the call and not named by modifies is unchanged.
-func (ex *Exec) frameObligations(fr *Frame, out *State, c *FuncContract, key string) {
-	entry := fr.entry
+func (ex *Exec) frameObligations(fr *Frame, out *State, entry *State, mods []ModTarget, key string, kind string, labelPrefix string) {
 	allowedAll := false
 	allowed := map[string][]*Term{} // key -> refs whose entry may change; nil entry with present key = whole key
 	whole := map[string]bool{}
 	env := ex.frameEnv(fr, entry, entry)
-	for _, mt := range c.Modifies {
+	for _, mt := range mods {
 		switch {
 		case mt.All:
 			allowedAll = true
@@ -144,7 +143,7 @@ func (ex *Exec) frameObligations(fr *Frame, out *State, c *FuncContract, key str
 		return
 	}
 	if out.heap.base != entry.heap.base {
-		ex.prove(key, out, "frame", "whole-heap", False, "the body havocs the whole heap (unmodelled construct or unknown callee) but modifies is not *", fr.fn.Pos())
+		ex.prove(key, out, kind, labelPrefix+"whole-heap", False, "the body havocs the whole heap (unmodelled construct or unknown callee) but modifies is not *", fr.fn.Pos())
 		return
 	}
 	var keys []string
@@ -176,7 +175,7 @@ func (ex *Exec) frameObligations(fr *Frame, out *State, c *FuncContract, key str
 			}
 			goal = Implies(And(conds...), Eq(Select(after, r), Select(before, r)))
 		}
-		ex.prove(key, out, "frame", k, goal, "only what modifies names may change: "+k, fr.fn.Pos())
+		ex.prove(key, out, kind, labelPrefix+k, goal, "only what modifies names may change: "+k, fr.fn.Pos())
 	}
 }
 
@@ -242,7 +241,7 @@ func (ex *Exec) targetKeys(env *Env, mt ModTarget) (keys []string, ref *Term, er
 func (eng *Engine) compileClosed(ax *Axiom, goal bool) (*Term, error) {
 	ex := newExec(eng, nil, nil)
 	ex.inSpec = 1
-	st := &State{pc: True, locals: map[*ssa.Alloc][]*Term{}, heap: newHeap(), wm: Const("wm.ax", IntSort)}
+	st := &State{pc: True, locals: map[*ssa.Alloc][]*Term{}, heap: newHeap(Const("wm.ax", IntSort)), wm: Const("wm.ax", IntSort)}
 	env := &Env{ex: ex, vars: map[string]Value{}, st: st, old: st, pkg: eng.pkgByName[ax.Pkg]}
 	return env.boolExpr(ax.E, goal)
 }
@@ -338,7 +337,7 @@ func (eng *Engine) relevantAxioms(terms []*Term, exclude string, onlyAxiomsAnd m
 }
 
 func builtinSym(s string) bool {
-	return s == "dyntype" || s == "str.len" || s == "str.at"
+	return s == "dyntype" || s == "str_len" || s == "str_at"
 }
 
 func (eng *Engine) lemmaObligation(name string) (*Obligation, error) {
@@ -359,6 +358,66 @@ func (eng *Engine) lemmaObligation(name string) (*Obligation, error) {
 }
 
 // script renders the obligation: assumptions ∧ pc ∧ ¬goal must be unsat.
+func hasQuantifier(t *Term, memo map[*Term]bool) bool {
+	if v, ok := memo[t]; ok {
+		return v
+	}
+	r := t.Op == "forall" || t.Op == "exists"
+	if !r {
+		for _, a := range t.Args {
+			if hasQuantifier(a, memo) {
+				r = true
+				break
+			}
+		}
+	}
+	memo[t] = r
+	return r
+}
+
+// script renders the obligation. relaxed: hypotheses containing quantifiers are dropped (sound: fewer hypotheses).
+// The second result lists the axioms used; the third says whether anything was dropped.
+func (eng *Engine) scriptR(o *Obligation, wantModel bool, relaxed bool) (string, []string, bool) {
+	s, ax := eng.script(o, wantModel)
+	if !relaxed {
+		return s, ax, false
+	}
+	memo := map[*Term]bool{}
+	var hyps []*Term
+	dropped := false
+	add := func(ts []*Term) {
+		for _, t := range ts {
+			if hasQuantifier(t, memo) {
+				dropped = true
+				continue
+			}
+			hyps = append(hyps, t)
+		}
+	}
+	if o.exec != nil {
+		add(o.exec.assumes[:o.NAssume])
+	}
+	add(o.Extra)
+	if !dropped {
+		return s, ax, false
+	}
+	core := append(append([]*Term{}, hyps...), o.PC, Not(o.Goal))
+	var axNames []string
+	if o.Kind != "lemma" {
+		var axs []*Term
+		axs, axNames = eng.relevantAxioms(core, "", nil)
+		var keep []*Term
+		for _, a := range axs {
+			if !hasQuantifier(a, memo) {
+				keep = append(keep, a)
+			}
+		}
+		hyps = append(keep, hyps...)
+	}
+	sc := &Script{Asserts: append(append([]*Term{}, hyps...), o.PC, Not(o.Goal))}
+	return sc.Render("ALL", nil, wantModel), axNames, true
+}
+
 func (eng *Engine) script(o *Obligation, wantModel bool) (string, []string) {
 	var hyps []*Term
 	if o.exec != nil {
@@ -385,3 +444,73 @@ func (eng *Engine) reachScript(rep *FuncReport) string {
 }
 
 var _ = token.NoPos
+
+// frameObligationsLoop: like frameObligations, but the modifies targets are evaluated in the state before
+// the loop (pre) while the comparison is between the loop-head state (head) and the back-edge state (out).
+func (ex *Exec) frameObligationsLoop(fr *Frame, out *State, head *State, pre *State, mods []ModTarget, key string, labelPrefix string) {
+	saved := fr.entry
+	// evaluate targets in pre, compare against head
+	allowedAll := false
+	allowed := map[string][]*Term{}
+	whole := map[string]bool{}
+	env := ex.frameEnv(fr, pre, saved)
+	for _, mt := range mods {
+		switch {
+		case mt.All:
+			allowedAll = true
+		case mt.Key != "":
+			whole[mt.Key] = true
+		default:
+			ks, ref, err := ex.targetKeys(env, mt)
+			if err != nil {
+				ex.eng.bindingErrors = append(ex.eng.bindingErrors, fmt.Sprintf("%s: loop modifies %s: %v", key, mt.Text, err))
+				return
+			}
+			for _, k := range ks {
+				if ref == nil {
+					whole[k] = true
+				} else {
+					allowed[k] = append(allowed[k], ref)
+				}
+			}
+		}
+	}
+	if allowedAll {
+		return
+	}
+	if out.heap.base != head.heap.base {
+		ex.prove(key, out, "loop-frame", labelPrefix+"whole-heap", False, "the loop body havocs the whole heap but the loop's modifies is not *", fr.fn.Pos())
+		return
+	}
+	var keys []string
+	for k := range out.heap.m {
+		keys = append(keys, k)
+	}
+	sort.Strings(keys)
+	for _, k := range keys {
+		if whole[k] {
+			continue
+		}
+		srt := keySortReg[k]
+		after := out.heap.Get(k, srt)
+		before := head.heap.Get(k, srt)
+		if after == before {
+			continue
+		}
+		var goal *Term
+		if srt.Kind != SArray {
+			goal = Eq(after, before)
+		} else {
+			r := Fresh("sk.frame.ref", srt.Idx)
+			var conds []*Term
+			if srt.Idx == IntSort {
+				conds = append(conds, Gt(r, IntLit(0)), Le(r, head.wm))
+			}
+			for _, a := range allowed[k] {
+				conds = append(conds, Not(Eq(r, a)))
+			}
+			goal = Implies(And(conds...), Eq(Select(after, r), Select(before, r)))
+		}
+		ex.prove(key, out, "loop-frame", labelPrefix+k, goal, "only what the loop's modifies names may change: "+k, fr.fn.Pos())
+	}
+}
